@@ -15,7 +15,7 @@ RULE = (
     "relations; non-trivial = distinct input tuples"
 )
 ASSUMPTIONS = ["finite value alphabets", "ideal gas R = 1716.49 ft lbf/(slug R), gamma = 1.4; the tabulated standard atmosphere is consistent with them to 2e-3", "OpenMDAO/NumPy trusted"]
-BOUND = {"quick": "3 values per input group", "thorough": "more value tuples"}
+BOUND = {"quick": "1-3 surfaces x 4 symmetry patterns (all full, all half, mixed full-first / half-first) x 3 values per input group", "thorough": "more value tuples"}
 G0 = 9.80665
 TOL = 1e-11
 
@@ -25,7 +25,10 @@ def states(tier, seed):
     st = []
     flights = [(0.38, 248.0, 1.0), (1.225, 60.0, 2.5), (0.9, 120.0, -1.0)]
     perf = [(11.165e6, 9.80665 * 17.0e-6, 295.4, 0.84), (2.0e6, 2.0e-4, 340.0, 0.3), (5.0e5, 1.0e-4, 200.0, 0.6)]
-    for ns, sym, usr, fl, pf, k in itertools.product([1, 2, 3], [False, True], [False, True], flights, perf, [0, 1, 2] if tier == "quick" else [0, 1, 2, 3, 4]):
+    # symmetry: all full-span, all half-span, or mixed ("fs": full-span first, then alternating; "sf": half-span first)
+    for ns, sym, usr, fl, pf, k in itertools.product([1, 2, 3], [False, True, "fs", "sf"], [False, True], flights, perf, [0, 1, 2] if tier == "quick" else [0, 1, 2, 3, 4]):
+        if ns == 1 and sym in ("fs", "sf"):
+            continue
         st.append(dict(part="perf", ns=ns, sym=sym, user_sref=usr, flight=list(fl), perf=list(pf), k=k, fam=fam))
     for ns, sym, k in itertools.product([1, 2, 3], [False, True], [0, 1, 2]):
         st.append(dict(part="lw", ns=ns, sym=sym, k=k, fam=fam))
@@ -46,13 +49,22 @@ def run_state(s):
     return globals()["part_" + s["part"]](s)
 
 
+def sym_of(sym, i):
+    if sym == "fs":
+        return i % 2 == 1
+    if sym == "sf":
+        return i % 2 == 0
+    return bool(sym)
+
+
 def perf_problem(s, W0=None):
     from openaerostruct.functionals.total_performance import TotalPerformance
 
-    ns, sym, fam, k = s["ns"], s["sym"], s["fam"], s["k"]
+    ns, fam, k = s["ns"], s["fam"], s["k"]
     surfs = []
     vals = {}
     for i in range(ns):
+        sym = sym_of(s["sym"], i)
         nx, ny = (2, 3) if i != 1 else (3, 4)
         m = gen.make_mesh("swept", nx, ny, "left" if sym else "full", fam, asym=not sym, offset=[4.0 * i, 0, 0.3 * i]) if (sym or ny % 2) else gen.make_mesh("swept", nx, ny + 1, "full", fam, asym=True, offset=[4.0 * i, 0, 0.3 * i])
         ny = m.shape[1]
@@ -102,11 +114,11 @@ def identities(p, surfs, vals, sym, usr):
         bp = vals["s%d_b_pts" % i]
         pts = 0.5 * (bp[:, 1:] + bp[:, :-1])
         mom = np.cross(pts - cg, vals["s%d_sec_forces" % i]).reshape(-1, 3).sum(axis=0)
-        if sym:
+        if sym_of(sym, i):
             mom = np.array([0.0, 2 * mom[1], 0.0])
         Mcg += mom
     ch = vals["s0_chords"]
-    mac = np.sum((0.5 * (ch[1:] + ch[:-1])) ** 2 * vals["s0_widths"]) / S[0] * (2.0 if sym else 1.0)
+    mac = np.sum((0.5 * (ch[1:] + ch[:-1])) ** 2 * vals["s0_widths"]) / S[0] * (2.0 if sym_of(sym, 0) else 1.0)
     return dict(S_ref_total=St, CL=CL, CD=CD, L=q * clS, D=q * cdS, fuelburn=fb, total_weight=W, L_equals_W=1 - q * St * CL / W, cg=cg, M=Mcg, CM=Mcg / (q * St * mac))
 
 
